@@ -45,6 +45,25 @@ def make_target(value: Any, ename: str, declared: bool):
     return target
 
 
+def with_members(tv: TV, ename: str, ecls) -> Any:
+    """erase(tv) with every declared value of enumeration `ename` given as the member object"""
+    from ..tvgen import A, L, Mp, N, S, T, U
+    if isinstance(tv, S):
+        return {k: with_members(v, ename, ecls) for k, v in tv.props.items()}
+    if isinstance(tv, (L, T)):
+        return [with_members(v, ename, ecls) for v in tv.items]
+    if isinstance(tv, Mp):
+        return {k: with_members(v, ename, ecls) for k, v in tv.items.items()}
+    if isinstance(tv, U):
+        return with_members(tv.child, ename, ecls)
+    if isinstance(tv, P) and tv.how[0] == "enum" and tv.how[1] == ename and tv.how[2]:
+        try:
+            return ecls(tv.v)
+        except Exception:
+            return tv.v
+    return erase(tv)
+
+
 def _work(args) -> dict:
     items, seed, k, n_custom = args
     sub = valuecheck.subject()
@@ -105,6 +124,20 @@ def _work(args) -> dict:
                 for f in roundtrip_relation(sub.objects, o, tv, f"root:{rname}"):
                     if f[1] == site or f[1].startswith(site + "|"):
                         ctx.finding((f[0], f[1], f"{site}:{kind}"), f"value {value!r}: {f[3]}", case)
+                if kind == "declared":
+                    # the declared value offered as the package's own constant (a str / int subclass instance)
+                    jm = with_members(tv, ename, getattr(sub.types, ename))
+                    res["evaluations"] += 1
+                    res["kinds"]["declared-as-member"] += 1
+                    try:
+                        om = json.loads(json.dumps(sub.conv.unstructure(sub.conv.structure(jm, T), T)))
+                    except Exception as ex:
+                        ctx.finding((f"raises:{exc_sig(ex)}", exc_frame(ex), f"{site}:declared-as-member"), f"member of {ename} for {value!r}: {exc_detail(ex)}", case)
+                        om = None
+                    if om is not None:
+                        for f in roundtrip_relation(sub.objects, om, tv, f"root:{rname}"):
+                            if f[1] == site or f[1].startswith(site + "|"):
+                                ctx.finding((f[0], f[1], f"{site}:declared-as-member"), f"member of {ename} for {value!r}: {f[3]}", case)
                 if root[0] in ("struct", "msg"):
                     fs = wt.check_obj(obj, root, j, f"root:{rname}", "-", exact_class=False)
                 else:
